@@ -24,6 +24,9 @@ CONFIGS = [
     dict(name="brushstart", frags="{#PMA=[>]CC[<]C(=O)OC[>A],#PEG=[<A]COC[>A][$A],#OH=[$B]O}", all_atom=True,
          react={"<": 0.1, ">": 0.1, ">A": 0.8, "<A": 0.8, "$A": 0.3, "$B": 0.0},
          cond={"$A": {"$A": 0, "$B": 1.0}}, terminal=["$A", "$B"], targets=[300], start_fragment="PEG"),
+    # configurations that dead-end on purpose (error outcomes of the sampler, explained by the specification)
+    dict(name="deadpartner", frags="{#A=[>]CC[<][>x]}", all_atom=True, react={}, cond={}, terminal=[], targets=[90]),
+    dict(name="deadcond", frags="{#A=[$a]CC[$b]}", all_atom=True, react={}, cond={"$a": {"$a": 0, "$b": 0}}, terminal=[], targets=[90]),
     dict(name="orders", frags="{#A=[$]=CC[$],#B=[$]=C(F)C=[$],#C=[$]O[$]}", all_atom=True,
          react={}, cond={}, terminal=[], targets=[120, 400]),
     dict(name="dirorders", frags="{#A=[>]=CC[<],#B=[<]=C(N)C[>],#C=[>x]O[<x]=[<]}", all_atom=True,
